@@ -119,7 +119,7 @@ validator-update order makes rapid report "flaky"; one run was disturbed by a co
 What this does **not** show: the changes were written against the properties, not against the
 checks, but they are about twenty-two per property and of the kind an LLM finds plausible; the second round,
 asked for subtlety, got past the first version of 25 of 40 checks, the third past 24, the
-fourth past 15, the fifth past 18, the sixth past 24 of 39, the seventh past 23 of 39 the eighth past 20 of 38, the ninth past 24 of 40, the tenth past 17 of 38 and the eleventh past 21 of 40, so a
+fourth past 15, the fifth past 18, the sixth past 24 of 39, the seventh past 23 of 39, the eighth past 20 of 38, the ninth past 24 of 40, the tenth past 17 of 38 and the eleventh past 21 of 40, so a
 twelfth round would still find gaps - the agents see every earlier idea and are asked for something else each time, while
 the generators only know what they were given. Their kinds shifted, though: round 2 mostly found inputs at a
 scale, at a boundary or in a spelling the generators did not produce; round 3 mostly found
@@ -136,7 +136,15 @@ the two-chain machines too lonely (no neighbouring bridge that could be disturbe
 outputs too few and too synchronous (one output per history, claimed while it is the newest),
 and two wall-clock / map-order dependencies that a repeat-and-compare relation cannot see unless the
 trace contains the right thing (the order of a stored list) or an outcome is known from the script
-alone (an update dated 2100 must be accepted whatever the machine's clock says). The class histograms in each evidence file are the guard against
+alone (an update dated 2100 must be accepted whatever the machine's clock says). Rounds 6 and 7 found
+scales and boundaries again (hundreds of pending outputs, periods near 2^63, counters near 2^64, hostile genesis
+files) and validation asymmetries between the two chains. Rounds 8 to 11 moved to *where else a request can come
+from and what else a process remembers*: restarts of either chain in the middle of a history (with block heights
+renumbered, with the genesis applied at height 0, with empty neighbouring modules), plans registered again after a
+restart, messages checked on a discarded branch before they are committed (that dimension found D12, a genuine
+defect, on the unchanged tree), end-of-block logic run twice, light-client data whose unauthenticated fields lie,
+key types, address lengths and spellings that the first generators never produced, and sweeps over a numeric
+parameter (the hook gas allowance) fine enough to hit windows a few hundred gas wide. The class histograms in each evidence file are the guard against
 silently losing such a class again (a generator health check fails the run when a named class
 is nearly empty), and every class added for a seeded change is named there.
 '''
